@@ -238,7 +238,7 @@ func c01Record(tag string, small bool) gRec {
 	}
 	nr := prof % 2
 	if full {
-		nr = vChoice(3)
+		nr = prof % 3
 	}
 	for i := 0; i < nr; i++ {
 		rf := gRef{idx: gItoa(i + 1), rng: "(bases 1 to " + gItoa(seqLen) + ")", authors: "Doe,J. and " + vBytes(2, c01Word) + ",K.", title: "Direct " + vBytes(2, c01Word), journal: "Unpublished" + tag}
@@ -251,8 +251,12 @@ func c01Record(tag string, small bool) gRec {
 	if !pick(0) {
 		r.comment = "A comment " + vBytes(2, c01Word) + "."
 	}
-	vn := vTier(2, 3)
-	switch vChoice(9) {
+	vn := 2
+	fcase := vChoice(9)
+	if fcase == 1 || fcase == 5 {
+		vn = vTier(2, 3) // 3-byte values for the plain and the wrapped qualifier only
+	}
+	switch fcase {
 	case 0:
 	case 1:
 		r.feats = []gFeat{{key: "gene", locLines: []string{"1..3"}, quals: []gQual{{"gene", c01Value(vn)}}}}
